@@ -231,4 +231,32 @@ mod verif_kani {
         while i < n { assert!(bytes20(&out, 16 + 20 * i) == s.info_hashes[i].0, "[C13.req.scrape.write] hashes follow in order"); i += 1; }
         assert!(matches!(Request::parse_bytes(&out[..len], 255), Ok(Request::Scrape(x)) if x == s), "[C13.req.scrape.roundtrip]");
     }
+
+    /// quick tier: connect requests only (every datagram of up to 20 bytes whose action field is 0), and the connect writer
+    #[kani::proof]
+    #[kani::unwind(22)]
+    fn parse_write_connect() {
+        let buf: [u8; 20] = kani::any();
+        let len: usize = kani::any();
+        kani::assume(len <= 20);
+        let b = &buf[..len];
+        if len >= 12 { kani::assume(be_i32(b, 8) == 0); }
+        let r = Request::parse_bytes(b, kani::any());
+        if len >= 16 && be_i64(b, 0) == MAGIC {
+            match r {
+                Ok(Request::Connect(c)) => assert!(c.transaction_id.0.get() == be_i32(b, 12), "[C13.req.connect.fields] transaction id at offset 12"),
+                _ => assert!(false, "[C13.req.connect.accept] conforming connect request must be accepted"),
+            }
+        } else {
+            assert!(is_unsendable(&r), "[C13.req.connect.reject] short connect or wrong protocol id: rejected, unanswerable");
+        }
+        let c = ConnectRequest { transaction_id: TransactionId::new(kani::any()) };
+        let mut out = [0u8; 32];
+        let mut cur = Cursor::new(&mut out[..]);
+        Request::Connect(c).write_bytes(&mut cur).unwrap();
+        let n = cur.position() as usize;
+        assert!(n == 16 && be_i64(&out, 0) == MAGIC && be_i32(&out, 8) == 0 && be_i32(&out, 12) == c.transaction_id.0.get(),
+            "[C13.req.connect.write] connect = magic, action 0, transaction id: 16 bytes");
+        assert!(matches!(Request::parse_bytes(&out[..n], 0), Ok(Request::Connect(x)) if x == c), "[C13.req.connect.roundtrip]");
+    }
 }
